@@ -61,9 +61,8 @@ def h_chain(ctx, depth, opts):
     ctx.require(r.get_depth() == depth, 'deep chain: depth')
 
 
-def h_many(ctx, n, fanout, opts, payload_pad=0):
-    """cell-count and payload-size boundaries: n distinct cells (concrete distinct filler; the root and one of its
-    children symbolic)"""
+def many_dag(ctx, n, fanout, payload_pad=0):
+    """n distinct cells (concrete distinct filler; the root and one of its children symbolic); returns (root spec cell, symbolic child)"""
     sym = SC(ORD, ctx.bitstr('x', 19), [])
     pending = []
     made = 2                       # root + sym
@@ -78,7 +77,56 @@ def h_many(ctx, n, fanout, opts, payload_pad=0):
         kids = [pending.pop() for _ in range(min(4, len(pending)))]
         pending.insert(0, SC(ORD, format(made, '020b') + '1', kids))
         made += 1
-    sc = warm(SC(ORD, cat_bits(ctx.bitstr('r', 7), '1' * payload_pad), [sym] + pending))
+    return warm(SC(ORD, cat_bits(ctx.bitstr('r', 7), '1' * payload_pad), [sym] + pending)), sym
+
+
+def exact_cells_dag(ctx, n):
+    """exactly n distinct cells: a symbolic root over a chain of groups of up to 4 concrete leaves"""
+    assert n >= 2
+    leaves = [SC(ORD, format(i, '024b'), []) for i in range(n - 1)]
+    # fold leaves into a 'comb': each inner cell takes 3 leaves + the rest of the comb; inner cells count too
+    # simpler: a chain where every cell holds (i) distinct 24-bit data and (ii) a reference to the next: n cells, depth n-1 <= 1023
+    if n - 1 <= 1000:
+        c = None
+        for i in range(n - 1):
+            c = SC(ORD, format(i, '024b'), [c] if c is not None else [])
+        return warm(SC(ORD, ctx.bitstr('r', 7), [c]))
+    # wide: a 4-ary tree of distinct cells with exactly n nodes
+    nodes = [None] * n
+    for i in reversed(range(1, n)):
+        kids = [nodes[j] for j in range(4 * i + 1, min(4 * i + 5, n))]
+        nodes[i] = SC(ORD, format(i, '024b'), kids)
+    return warm(SC(ORD, ctx.bitstr('r', 7), [nodes[j] for j in range(1, min(5, n))]))
+
+
+def payload_chain(ctx, target):
+    """a chain whose serialised cell data (descriptors + data + reference indices) is exactly `target` bytes"""
+    for size in (1, 2, 3):
+        # all cells but the last: 2 + d_i + size bytes; last: 2 + d_last.  root: 7 symbolic bits -> 1 data byte
+        for ncells in range(2, 1000):
+            if not (ncells < (1 << (8 * size)) and (size == 1 or ncells >= (1 << (8 * (size - 1))))):
+                continue
+            fixed = (2 + size) * (ncells - 1) + 2 + 1       # overheads + the root's single data byte
+            rest = target - fixed
+            if rest < 0 or rest > 127 * (ncells - 1):
+                continue
+            datas, left = [], rest
+            for i in range(ncells - 1):
+                d = min(127, left)
+                datas.append(d)
+                left -= d
+            c = None
+            for i, d in enumerate(reversed(datas)):
+                bits = format((i * 2654435761) % (1 << 32), '032b') * 32
+                c = SC(ORD, bits[:8 * d], [c] if c is not None else [])
+            return warm(SC(ORD, ctx.bitstr('r', 7), [c]))
+    raise ValueError(f'no chain for payload {target}')
+
+
+def h_many(ctx, n, fanout, opts, payload_pad=0):
+    """cell-count and payload-size boundaries: n distinct cells (concrete distinct filler; the root and one of its
+    children symbolic)"""
+    sc, sym = many_dag(ctx, n, fanout, payload_pad)
     root = to_real(sc, via='builder')
     install_crc_stub(ctx)
     boc = root.to_boc(**opts)
@@ -97,6 +145,35 @@ def h_many(ctx, n, fanout, opts, payload_pad=0):
         cnt += 1
         stack.extend(c.refs)
     ctx.require(cnt == len(topo(sc)), 'many cells: number of distinct cells')
+
+
+def h_two_bags(ctx, opts1, opts2, order):
+    """the same cell objects take part in several bags: a shared sub-DAG X sits at different positions in the bag of
+    root A = (X, P) and in the bag of root B = (Q, R, X) - every serialisation parses back to its own root, whatever
+    was serialised before (per-cell state kept between to_boc calls would show here)"""
+    leaf1, leaf2 = SC(ORD, ctx.bitstr('l1', 9), []), SC(ORD, ctx.bitstr('l2', 4), [])
+    x = SC(ORD, ctx.bitstr('x', 13), [leaf1, leaf2, leaf1])
+    p, q, r = SC(ORD, ctx.bitstr('p', 5), []), SC(ORD, ctx.bitstr('q', 6), [leaf2]), SC(ORD, ctx.bitstr('r', 3), [])
+    a = warm(SC(ORD, ctx.bitstr('a', 8), [x, p]))
+    b = warm(SC(ORD, ctx.bitstr('b', 8), [q, r, x]))
+    real = {}
+
+    def mk(sc):
+        if id(sc) not in real:
+            bl = Builder().store_bits(sc.bits)
+            for ch in sc.refs:
+                bl.store_ref(mk(ch))
+            real[id(sc)] = bl.end_cell()
+        return real[id(sc)]
+    ra, rb, rx = mk(a), mk(b), mk(x)
+    install_crc_stub(ctx)
+    todo = {'ab': [(ra, a, opts1), (rb, b, opts2), (ra, a, opts2)], 'ba': [(rb, b, opts1), (ra, a, opts2), (rb, b, opts1)],
+            'xab': [(rx, x, opts1), (ra, a, opts1), (rb, b, opts2), (rx, x, opts2)]}[order]
+    for root, sc, o in todo:
+        boc = root.to_boc(**o)
+        got = Cell.one_from_boc(boc)
+        ctx.require(got.hash == cell_hash(sc, 3), 'several bags over shared cell objects: parsed root has the specification hash')
+        ctx.require(same_structure(ctx, got, sc, 'root'), 'several bags over shared cell objects: identical structure')
 
 
 SMALL = None
@@ -140,6 +217,15 @@ def instances(tier, seed):
     for lens in ([1023, 1017], [1016, 1022], [1018, 1019], [1020, 1021], [1015, 0], [7, 8], [9, 1]):
         for o, entry, form in ((OPTIONS[0], 'cell', 'bytes'), (OPTIONS[5], 'slice', 'hex'), (OPTIONS[3], 'builder', 'base64')):
             yield 'h_roundtrip', dict(shape=[[1], []], opts=o, lens=lens, entry=entry, form=form)
+    # maximal cells: 1015..1023 data bits together with 4 references, as the root and as an inner cell
+    for n0 in (1023, 1017, 1016, 1020):
+        for o, entry, form in ((OPTIONS[0], 'cell', 'bytes'), (OPTIONS[5], 'slice', 'hex')) if tier == 'quick' else [(o, 'cell', 'bytes') for o in OPTIONS]:
+            yield 'h_roundtrip', dict(shape=[[1, 2, 3, 4], [], [], [], []], opts=o, lens=[n0, 3, 0, 9, 1022], entry=entry, form=form)
+            yield 'h_roundtrip', dict(shape=[[1], [2, 3, 4, 5], [], [], [], []], opts=o, lens=[6, n0, 1, 1023, 8, 2], entry=entry, form=form)
+    # the same cell objects in several bags
+    for order in ('ab', 'ba', 'xab'):
+        for o1, o2 in ((OPTIONS[0], OPTIONS[0]), (OPTIONS[0], OPTIONS[5]), (OPTIONS[3], OPTIONS[1])):
+            yield 'h_two_bags', dict(opts1=o1, opts2=o2, order=order)
     # exotic cells
     for ex, m in (('mproof_ord_pruned', 1), ('mproof_ord_pruned', 3), ('mupd', 1), ('library', 1), ('ord_over_library', 1),
                   ('ord_over_two_pruned', 5), ('mproof_mproof', 2)):
@@ -164,6 +250,8 @@ BOUNDS = {
     'contents': 'all data bits of every cell symbolic (concrete distinct filler in the 255..257 / 65535..65537-cell cases and the deep chains)',
     'options': 'the 6 valid combinations (quick: two per small DAG, all six on the families)',
     'encodings/entry points': 'bytes, hex text, base64 text x Cell/Slice/Builder.one_from_boc',
+    'maximal cells': '1016, 1017, 1020, 1023 data bits with 4 references (root and inner cell)',
+    'several bags': 'two roots sharing a sub-DAG, serialised in three orders with differing option sets',
     'deep chains': 'depth 300 and 1023 (quick); 200, 990, 1000, 1023 (thorough)',
 }
 OUTSIDE = ['DAGs of more than 4 cells with fully symbolic contents outside the families', 'tens of thousands of cells only with concrete filler']
